@@ -404,13 +404,36 @@ def run(ctx, mod):
     if failing:
         again = pool_map(ctx, lambda c: _exec_case(ctx, mod, c), [c for _, c in failing],
                          timeout=timeout)
+        jobs = max(1, min(ctx.jobs, len(order)))
         for (cid, case), (status, payload) in zip(failing, again):
             still = status != "done" or payload.get("nfails", 0) > 0
             if status == "harness":
                 raise HarnessError(payload)
-            if not still:
-                raise HarnessError("non-reproducible failure in case %s: %s"
-                                   % (cid, canon(case)[:300]))
+            if still:
+                continue
+            # Alone in a fresh process the case passes.  Either the harness is flaky, or the failure depends
+            # on what the same process executed BEFORE it (module-level state in the code under test).  Decide by
+            # replaying, in one fresh process, exactly the cases that worker had executed up to this one.
+            pos = order.index(cids.index(cid))
+            history = [cases[order[k]] for k in range(pos % jobs, pos + 1, jobs)]
+
+            def run_history(hist):
+                last = None
+                for c in hist:
+                    last = _exec_case(ctx, mod, c)
+                return last
+            (st2, pl2), = pool_map(ctx, run_history, [history], timeout=timeout * max(1, len(history)), jobs=1)
+            if st2 == "harness":
+                raise HarnessError(pl2)
+            if st2 == "done" and pl2.get("nfails", 0) == 0:
+                raise HarnessError("non-reproducible failure in case %s: %s" % (cid, canon(case)[:300]))
+            for f in report.fails:
+                if f["cid"] == cid:
+                    f["fkey"] = dict(f.get("fkey") or {}, history_dependent=True)
+                    f["detail"] = ("[passes as the first case of a fresh process; fails again when the %d cases this worker "
+                                   "executed before it are replayed first -> depends on process history] " % (len(history) - 1)
+                                   + f["detail"])
+                    f["case"] = {"sequence": history}
     if hasattr(mod, "finish"):
         mod.finish(ctx, report)
     return report
@@ -420,6 +443,23 @@ def replay(ctx, mod, path):
     with open(path) as fh:
         doc = json.load(fh)
     case = doc["case"] if "case" in doc else doc
+    if "sequence" in case:
+        if hasattr(mod, "setup"):
+            mod.setup(ctx)
+
+        def run_history(hist):
+            last = None
+            for c in hist:
+                last = _exec_case(ctx, mod, {k: v for k, v in c.items() if k != "_sub"})
+            return last
+        (status, payload), = pool_map(ctx, run_history, [case["sequence"]], jobs=1,
+                                      timeout=getattr(mod, "CASE_TIMEOUT", 120) * len(case["sequence"]))
+        if status != "done" or payload.get("nfails", 0):
+            print("replay (sequence of %d cases): last case fails: %s" % (len(case["sequence"]), str(payload)[:600]))
+            print("VIOLATION property=%s replay=%s" % (ctx.pid, path))
+            return 1
+        print("replay (sequence of %d cases): passes" % len(case["sequence"]))
+        return 0
     case = {k: v for k, v in case.items() if k != "_sub"}
     if hasattr(mod, "setup"):
         mod.setup_replay(ctx, case) if hasattr(mod, "setup_replay") else mod.setup(ctx)
